@@ -275,6 +275,51 @@ fn main() {
             let budget = args.get(4).and_then(|s| s.parse().ok()).unwrap_or(30);
             cmd_minimize(&args[2], &args[3], budget)
         }
+        "engines" => {
+            println!("rendersim");
+            0
+        }
+        "dbg-gen" => {
+            // generator health: histogram of world rejections and render errors
+            let n: u64 = args.get(2).and_then(|s| s.parse().ok()).unwrap_or(300);
+            on_big_stack(move || {
+                let mut rej: BTreeMap<String, (u64, String)> = BTreeMap::new();
+                let mut errs: BTreeMap<String, u64> = BTreeMap::new();
+                for i in 0..n {
+                    let sc = rendersim::generate(rng::run_seed(1, "dbg", i), "quick", "C18");
+                    ahash::sim::reset(ahash::sim::Mode::PerInstance, 1);
+                    let mut t = engine::new_tera(&sc.config);
+                    if let Err(e) = t.add_raw_templates(sc.templates.iter().map(|(n, s)| (n.as_str(), s.as_str()))) {
+                        let msg = format!("{}", e);
+                        let key: String = msg.lines().next().unwrap_or("").chars().take(90).collect();
+                        rej.entry(key).or_insert((0, msg.clone())).0 += 1;
+                        continue;
+                    }
+                    let ctxs: Vec<tera::Context> = sc.contexts.iter().map(|c| c.to_context()).collect();
+                    for tg in &sc.targets {
+                        if let Err(e) = rendersim::run_target_string(&t, tg, &ctxs[0]) {
+                            let msg = format!("{}", e);
+                            let key: String = msg.lines().next().unwrap_or("").chars().take(70).collect();
+                            let key = key.split('`').next().unwrap_or("").to_string();
+                            *errs.entry(key).or_insert(0) += 1;
+                        } else {
+                            *errs.entry("OK".into()).or_insert(0) += 1;
+                        }
+                    }
+                }
+                let mut r: Vec<_> = rej.into_iter().collect();
+                r.sort_by_key(|x| std::cmp::Reverse(x.1 .0));
+                for (k, (c, full)) in r.iter().take(12) {
+                    println!("REJ {:4} {}\n{}\n", c, k, engine::trunc(full));
+                }
+                let mut e: Vec<_> = errs.into_iter().collect();
+                e.sort_by_key(|x| std::cmp::Reverse(x.1));
+                for (k, c) in e.iter().take(40) {
+                    println!("ERR {:5} {}", c, k);
+                }
+            });
+            0
+        }
         "f1" => {
             // stand-alone run of the F1 probe set
             let vs = on_big_stack(|| {
